@@ -702,6 +702,12 @@ def gen_level(rng, names, depth=0, max_depth=2, features=("alt", "adj", "cmd", "
             nm = names.cmdname()
             cmds.append(cmd(nm, o, aliases=[names.cmdname()] if rng.random() < 0.2 and len(names.cmds) > 3 else [],
                             shorts=[names.short()] if rng.random() < 0.2 else [], help="cmd " + nm))
+        if "modealt" in features and rng.random() < 0.3:
+            # a "plain mode" next to the subcommands: a group of items that all succeed on nothing, listed before or after
+            plain = [flag(names.named()) if rng.random() < 0.6 else wrap("optional", arg(names.named(), "V", "string"), catch=False)
+                     for _ in range(rng.choice([1, 2]))]
+            pg = con(*plain) if len(plain) > 1 else con(plain[0], pure(vnum(0)))
+            cmds.insert(rng.choice([0, 0, len(cmds)]), pg)
         c = cmds[0] if len(cmds) == 1 else alt(*cmds)
         if rng.random() < 0.2:
             c = wrap("optional", c)
